@@ -145,6 +145,14 @@ def _closures(prog, rep, factories, mode="grad", r_guard="R03.2", r_term="R03.3"
                         ok = False
                         why = f"result array has shape {shape}, not n / (n, n)"
                 rep.ob(r_guard, construct, ok, f"gathers x[{sorted(idx)[0]}] and scatters into the same positions of a zero array" if ok else (why or "gathers x[indices] without scattering into a zero array with the same indices"), loc=loc, detail="gather/scatter")
+                # the index must be the column lookup validated by R03.1 (`indices`), or be proven equal to it
+                derived = sorted(i for i in idx if i != "indices")
+                if derived:
+                    proven = any(pol and "np.array_equal(indices" in src(t) for t, pol in dominating_guards(cl))
+                    rep.ob(r_guard, construct, proven,
+                           f"index {derived[0]} is guarded by an element-wise comparison with `indices`" if proven else
+                           f"gathers and scatters through `{derived[0]}`, an index derived from `indices` (first/last element, min/max, slice) without an element-wise np.array_equal(indices, ...) guard: equal end points do not imply equal order, so a permuted variable list puts derivatives in the wrong columns",
+                           loc=loc, detail="index-is-the-column-lookup")
             else:
                 # constant closure: returned array must be under the full guard or position-independent
                 rets = [n.value for n in walk_local(cl) if isinstance(n, ast.Return)]
